@@ -70,6 +70,39 @@ fn pb_varint_decode_total() {
     kani::cover!(res.is_err() && len == 11);
 }
 
+/// (complete for inputs of 0..=11 bytes) the VALUE and LENGTH decode_varint returns, on every input: Ok(v)
+/// exactly when the input starts with a terminated varint of at most 10 bytes whose 10th byte is 0 or 1;
+/// then v is the little-endian base-128 number of its payload bits and exactly those bytes are consumed.
+/// This is the statement Verus assumes for the unsafe unrolled decode_varint_slice (vf/units/prost.vu):
+/// inputs of 11 bytes, and shorter inputs ending in a byte < 0x80, go through that function.
+#[kani::proof]
+#[kani::unwind(13)]
+fn pb_varint_decode_value() {
+    let raw: [u8; 11] = kani::any();
+    let len: usize = kani::any();
+    kani::assume(len <= 11);
+    let mut r: &[u8] = &raw[..len];
+    let res = decode_varint(&mut r);
+    let mut first = 99usize;
+    let mut want: u64 = 0;
+    let mut i = 0;
+    while i < 10 {
+        if i < len && first == 99 {
+            want |= ((raw[i] & 0x7f) as u64) << (7 * i);
+            if raw[i] < 128 { first = i; }
+        }
+        i += 1;
+    }
+    let wellformed = first != 99 && (first < 9 || raw[9] < 2);
+    match res {
+        Ok(v) => { assert!(wellformed); assert!(v == want); assert!(r.len() == len - first - 1); }
+        Err(_) => assert!(!wellformed),
+    }
+    kani::cover!(res.is_ok() && first == 9 && len == 11);
+    kani::cover!(res.is_ok() && first == 4 && len == 5);
+    kani::cover!(res.is_err() && len == 11);
+}
+
 // (the key codec is exercised by every scalar harness below: each encodes a key for a symbolic tag and
 // decodes it back with decode_key; a stand-alone key harness spends > 10 min in error formatting)
 
